@@ -79,7 +79,7 @@ def gen_tb_case(rng, quick):
         nx = [rng.randint(1, 4) for _ in range(ndim)]
         dx = [dy(Fraction(rng.randint(1, 12), 4)) for _ in range(ndim)]
         x0 = [dy(Fraction(rng.randint(-40, 40), 4)) for _ in range(ndim)]
-        ang = [dy(rng.choice([0, 30, 45, 90, -20])) for _ in range(ndim)] if (ndim >= 2 and rng.random() < .3) else []
+        ang = [dy(rng.choice([30, 45, 90, -20, 120, Fraction(45, 4)])) if (k == 0 or ndim == 3) else dy(0) for k in range(ndim)] if (ndim >= 2 and rng.random() < .5) else []
         n = 1
         for k in nx: n *= k
         sel = [rng.random() < .8 for _ in range(n)] if rng.random() < .3 else []
@@ -321,6 +321,25 @@ def check_directions(ctx, case, res, model_cases, model_meta, idx):
                     model_meta.append(('aniso', idx, ibs, is_))
                 else:
                     exp_ang = u; exp_scale = fl(scale)
+                # grid path: t00 / dxp / dyp / dzp are the band abscissa of the origin node and its increments along the GRID axes
+                # (TurningBandDirection::projectGrid through the grid rotation; divided by the scale for the dilution structures)
+                if db[0] == 1 and hasrange > 0 and len(res) > 10:
+                    coords = [[fl(v) for v in col] for col in res[10]]
+                    nxs = db[1]
+                    div = cd[3] if ty in (2, 4) else 1.
+                    def node(ix): return [coords[k][ix] for k in range(ndim)]
+                    def proj(pt): return sum(pt[k] * cd[k] for k in range(ndim))
+                    p0 = proj(node(0))
+                    exp_t = [p0 / div, None, None, None]
+                    stride = 1
+                    for k in range(ndim):
+                        if nxs[k] > 1: exp_t[1 + k] = (proj(node(stride)) - p0) / div
+                        stride *= nxs[k]
+                    sc_ = max(abs(p0 / div), 1.)
+                    for k4, name4 in enumerate(['t00', 'dxp', 'dyp', 'dzp']):
+                        if exp_t[k4] is not None and abs(cd[6 + k4] - exp_t[k4]) > 1e-9 * sc_:
+                            ctx.violation(what + ':grid-increment', 'band %d: %s = %r, the projection of the grid geometry (rotation included) on the band gives %r' % (ibs, name4, cd[6 + k4], exp_t[k4]),
+                                          {'case': sx_str(case), 'band': ibs, 'which': name4}); found = True
                 ctx.count(None, False)
                 err = max(abs(cd[k] - exp_ang[k]) for k in range(3))
                 if err > 1e-9 or abs(cd[3] - exp_scale) > 1e-9 * (1 + abs(exp_scale)):
@@ -1039,6 +1058,7 @@ PARTS.append(('proc', gen_proc, cmp_proc, 400, 499, globals().get('meta_proc')))
 # END PART proc 
 # BEGIN PART fft 
 
+
 # C14 / part fft : generators and comparison for the kinds 200..299
 #   200 _getFactors / _getOptimalEvenNumber (exact)           210 _defineSymmetry + _setVariance cells on integer arrays (exact)
 #   220 second moment of the whole FFT simulator (numeric)     240 dimension order of fftn (numeric)
@@ -1057,6 +1077,35 @@ FFT_COV = {1: 'exponential', 2: 'spherical', 3: 'gaussian', 4: 'cubic', 5: 'mate
 
 def fft_angles(ndim, a):
     return [dy(a)] + [dy(0)] * (ndim - 1)
+
+def fft_sincos(a):
+    """GH::rotationGetSinCos (GeometryHelper.cpp:72): angle in degrees, exact values at 0/90/180/270"""
+    a = float(a)
+    if a == 0.: return 1., 0.
+    if a == 90.: return 0., 1.
+    if a == 180.: return -1., 0.
+    if a == 270.: return 0., -1.
+    v = a * math.pi / 180.
+    return math.cos(v), math.sin(v)
+
+def fft_rotmat(nd, angles):
+    """rotation matrix of a grid (rows), convention of coq/C16/Model.v rot2d / rot3d = GH::rotation2DMatrixInPlace / 3D read column-major;
+    [] when every angle is 0 (the library keeps the identity and does not rotate)"""
+    if nd == 1 or all(float(a) == 0. for a in angles[:nd]): return []
+    if nd == 2:
+        c, s_ = fft_sincos(angles[0]); return [[c, -s_], [s_, c]]
+    (c0, s0), (c1, s1), (c2, s2) = fft_sincos(angles[0]), fft_sincos(angles[1]), fft_sincos(angles[2])
+    return [[c0 * c1, -s0 * c2 + c0 * s1 * s2, s0 * s2 + c0 * s1 * c2],
+            [s0 * c1, c0 * c2 + s0 * s1 * s2, -c0 * s2 + s0 * s1 * c2],
+            [-s1, c1 * s2, c1 * c2]]
+
+def fft_case220(nd, nx, ct, sill, rg, mang, alias=1, dx=None, gang=None, x0=None, percent=Fraction(1, 8)):
+    """kind-220 case: model (covariance type, sill, ranges, angles) on a DbGrid (nx, dx, rotation angles, origin)"""
+    dx = dx or [1] * nd; gang = gang or [0] * nd; x0 = x0 or [0] * nd
+    mang = mang if isinstance(mang, list) else [mang] + [0] * (nd - 1)
+    M = fft_rotmat(nd, gang)
+    return [220, nd, nx, ct, dy(sill), [dy(r) for r in rg], [dy(a) for a in mang], dy(percent), alias,
+            [dy(v) for v in dx], [dy(a) for a in gang], [dy(v) for v in x0], [[dy(v) for v in row] for row in M]]
 
 def meta_fft(case):
     """meta of a case rebuilt from the case alone (cmp_fft reads everything it needs from the case; the meta is a label)"""
@@ -1110,9 +1159,36 @@ def gen_fft(ctx, quick):
         (2, [5, 6, 1], 2, 2, [3, 2], 0), (2, [6, 5, 1], 1, 2, [2, 3], 0), (3, [3, 4, 4], 2, 2, [3, 2, 2], 0),
         (3, [4, 3, 3], 2, 2, [2, 2, 2], 0), (3, [3, 3, 3], 2, 2, [2, 2, 2], 0), (3, [3, 3, 2], 2, 2, [3, 2, 2], 0),
     ]
+    def label(nd, rg, gang, dx):
+        return 'fft:second-moment:%dd-%s-%s%s' % (nd, 'iso' if len(set(rg)) == 1 else 'aniso', 'rotated-grid' if any(gang) else 'unrotated-grid',
+                                                  '-dx!=dy' if len(set(dx)) > 1 else '')
     for nd, nx, ct, sill, rg, ang in fixed:
-        add([220, nd, nx, ct, dy(sill), [dy(r) for r in rg], fft_angles(nd, ang), dy(Fraction(1, 8)), 1],
-            ('mom', nd, 'iso' if len(set(rg)) == 1 else 'aniso'), 'fft:second-moment:%dd-%s' % (nd, 'iso' if len(set(rg)) == 1 else 'aniso'))
+        add(fft_case220(nd, nx, ct, sill, rg, ang), None, label(nd, rg, [0], [1]))
+    Q = Fraction
+    # rotated grids (the lag of a cell is R.(jnd*dx): CalcSimuFFT.cpp:502-508) x isotropic / anisotropic / rotated-anisotropic models x dx != dy
+    rotated = [
+        # nd  nx          ct sill   ranges                    model angle(s)  alias dx                 grid angles      x0
+        (2, [7, 7, 1],   4, 1,      [6, Q(3, 2)],             0,             1, [1, 1],             [30, 0],         [0, 0]),      # the seed's demo (30 deg, ranges 30/6), scaled down
+        (2, [6, 5, 1],   2, 2,      [5, 2],                   0,             1, [1, 1],             [45, 0],         [0, 0]),
+        (2, [6, 6, 1],   2, Q(3, 2), [4, 2],                  30,            1, [1, Q(1, 2)],       [-20, 0],        [0, 0]),
+        (2, [5, 7, 1],   1, 2,      [3, Q(3, 2)],             0,             1, [Q(1, 2), 1],       [120, 0],        [0, 0]),
+        (2, [6, 6, 1],   2, 2,      [3, 3],                   0,             1, [1, 1],             [30, 0],         [0, 0]),
+        (2, [6, 5, 1],   2, 2,      [5, 2],                   0,             1, [1, 1],             [90, 0],         [3, -2]),
+        (2, [7, 6, 1],   4, 3,      [5, 2],                   45,            1, [1, Q(3, 4)],       [45, 0],         [0, 0]),
+        (2, [5, 5, 1],   2, 1,      [4, Q(3, 2)],             0,             1, [1, 1],             [Q(45, 4), 0],   [0, 0]),
+        (2, [6, 6, 1],   2, 2,      [5, 2],                   0,             0, [1, 1],             [-20, 0],        [10, -5]),
+        (2, [4, 4, 1],   2, 1,      [3, 1],                   0,             1, [1, 1],             [30, 0],         [0, 0]),      # smallest witness kept in the corpus
+        (2, [6, 6, 1],   2, 2,      [4, 2],                   0,             1, [1, Q(1, 2)],       [0, 0],          [0, 0]),
+        (2, [6, 4, 1],   1, 2,      [2, 4],                   60,            1, [Q(3, 4), Q(1, 2)], [Q(135, 2), 0],  [1, 1]),
+        (3, [3, 3, 3],   2, 2,      [3, 2, Q(3, 2)],          [0, 0, 0],     1, [1, 1, 1],          [30, 0, 0],      [0, 0, 0]),
+        (3, [3, 4, 3],   2, 2,      [3, Q(3, 2), 2],          [0, 0, 0],     1, [1, Q(1, 2), 1],    [20, 10, -15],   [1, 2, 3]),
+        (1, [9, 1, 1],   2, 2,      [3],                      0,             1, [Q(1, 2)],          [0],             [5]),
+        # witnesses of the defect CalcSimuFFT:antialiasing-shift-not-rotated of /repo HEAD 81e8ebafa (anti-aliasing pass on a rotated grid; see fft_fix_5.patch)
+        (3, [2, 3, 3],   4, Q(1, 2), [Q(3, 2), Q(5, 2), Q(5, 2)], [0, 0, 0], 1, [Q(1, 2), Q(1, 2), 1], [120, -15, 20], [0, 0, 0]),
+        (2, [3, 5, 1],   4, Q(15, 4), [4, 4],                 0,             1, [Q(1, 2), 1],       [30, 0],         [0, 0]),
+    ]
+    for nd, nx, ct, sill, rg, mang, alias, dx, gang, x0 in rotated:
+        add(fft_case220(nd, nx, ct, sill, rg, mang, alias, dx, gang, x0), None, label(nd, rg, gang, dx))
     for _ in range(0 if quick else 24):
         nd = rng.choice([1, 2, 2, 2, 3])
         nx = [rng.randint(3, 12), rng.randint(3, 10) if nd >= 2 else 1, rng.randint(2, 3) if nd >= 3 else 1]
@@ -1124,8 +1200,22 @@ def gen_fft(ctx, quick):
         if nd == 3: rg = [min(r, Fraction(5, 2)) for r in rg]
         ang = 0 if (iso or nd != 2 or rng.random() < .5) else rng.choice([30, 45, 90, 120])
         sill = Fraction(rng.randint(1, 16), 4)
-        add([220, nd, nx, ct, dy(sill), [dy(r) for r in rg], fft_angles(nd, ang), dy(Fraction(1, 8)), 1 if rng.random() < .7 else 0],
-            ('mom', nd, 'iso' if len(set(rg)) == 1 else 'aniso'), 'fft:second-moment:%dd-%s' % (nd, 'iso' if len(set(rg)) == 1 else 'aniso'))
+        add(fft_case220(nd, nx, ct, sill, rg, ang, 1 if rng.random() < .7 else 0), None, label(nd, rg, [0], [1]))
+    for _ in range(0 if quick else 30):
+        nd = rng.choice([2, 2, 2, 3])
+        nx = [rng.randint(3, 8), rng.randint(3, 8), 1] if nd == 2 else [rng.randint(2, 4), rng.randint(2, 4), rng.randint(2, 3)]
+        ct = rng.choice([1, 2, 2, 4])
+        kind_m = rng.choice(['iso', 'aniso', 'aniso', 'aniso-rot'])
+        r0 = Fraction(rng.randint(4, 10), 2)
+        rg = [r0] * nd if kind_m == 'iso' else [Fraction(rng.randint(3, 10), 2) for _ in range(nd)]
+        if nd == 3: rg = [min(r, Fraction(5, 2)) for r in rg]
+        mang = [rng.choice([30, 45, 60, 120]) if (kind_m == 'aniso-rot') else 0] + [0] * (nd - 1)
+        dx = [rng.choice([1, 1, Fraction(1, 2), Fraction(3, 4)]) for _ in range(nd)]
+        ga = lambda: rng.choice([30, 45, -20, 90, 120, Fraction(45, 4), Fraction(-135, 8), 200])
+        gang = [ga(), 0] if nd == 2 else [ga(), rng.choice([0, 10, -15]), rng.choice([0, 20])]
+        x0 = [rng.randint(-5, 5) for _ in range(nd)]
+        sill = Fraction(rng.randint(1, 16), 4)
+        add(fft_case220(nd, nx, ct, sill, rg, mang, 1 if rng.random() < .7 else 0, dx, gang, x0), None, label(nd, rg, gang, dx))
     # ---- spectral, injected state
     for _ in range(10 if quick else 60):
         nd = rng.choice([1, 2, 2, 3]); ns = rng.randint(3, 24)
@@ -1155,6 +1245,25 @@ def gen_fft(ctx, quick):
         pts = [[dy(Fraction(rng.randint(-80, 80), 4)) for _ in range(nd)] for _ in range(rng.randint(2, 6))]
         sills = [dy(1), dy(rng.choice([4, 9, Fraction(9, 4), Fraction(1, 4)]))]
         add([271, nd, ct, ns, rng.randint(1, 100000), sills, [dy(r) for r in rg], fft_angles(nd, ang), pts], ('simuSpectral', nd), 'fft:spectral-real')
+    # ---- spectral on a rotated DbGrid: _computeOnRn reads the node coordinates of the grid (rotation included); the case lists the nodes
+    #      x0 + R.(ind*dx) computed here with the convention of C16, the implementation gets the grid itself
+    for _ in range(3 if quick else 12):
+        nd = rng.choice([2, 2, 3]); ns = rng.randint(5, 40)
+        ct = rng.choice([1, 3, 5])
+        rg = [Fraction(rng.randint(2, 12), 2) for _ in range(nd)]
+        ang = rng.choice([0, 30, 75]) if nd == 2 else 0
+        nxg = [rng.randint(2, 4) for _ in range(nd)]
+        dxg = [rng.choice([1, Fraction(1, 2), Fraction(3, 4)]) for _ in range(nd)]
+        x0g = [rng.randint(-5, 5) for _ in range(nd)]
+        gang = [rng.choice([30, 45, -20, 120, Fraction(45, 4)])] + ([0] if nd == 2 else [rng.choice([0, 10]), rng.choice([0, -15])])
+        M = fft_rotmat(nd, gang) or [[1. if a == b else 0. for b in range(nd)] for a in range(nd)]
+        pts = []
+        for r in range(nxg[0] * nxg[1] * (nxg[2] if nd == 3 else 1)):
+            ind = [r % nxg[0], (r // nxg[0]) % nxg[1]] + ([r // (nxg[0] * nxg[1])] if nd == 3 else [])
+            pts.append([dy(float(x0g[a]) + sum(M[a][b] * ind[b] * float(dxg[b]) for b in range(nd))) for a in range(nd)])
+        sills = [dy(1), dy(rng.choice([4, 9, Fraction(9, 4), Fraction(1, 4)]))]
+        add([271, nd, ct, ns, rng.randint(1, 100000), sills, [dy(r) for r in rg], fft_angles(nd, ang), pts, nxg, [dy(v) for v in dxg], [dy(v) for v in x0g], [dy(a) for a in gang]],
+            None, 'fft:spectral-real:rotated-grid')
     return cases, meta
 
 def fft_f(p): return float(undy(p))
@@ -1263,23 +1372,63 @@ def cmp_fft(ctx, case, meta, impl, model):
     # ------------------------------------------------------------------ 220
     if kind == 220:
         ctx.count(sx_str(case)); nd, nx, ct, sill = case[1], case[2], case[3], float(undy(case[4]))
-        dims, shift, maxu, maxv, okrule, cov, ctrue, cdist, nclip = impl
+        dims, shift, maxu, maxv, okrule, cov, ctrue, cdist, nclip, coords, lags, ctrans = impl
         maxu, maxv = fft_f(maxu), fft_f(maxv)
-        cov = [fft_f(x) for x in cov]; ctrue = [fft_f(x) for x in ctrue]; cdist = [fft_f(x) for x in cdist]
+        cov = [fft_f(x) for x in cov]; ctrue = [fft_f(x) for x in ctrue]; cdist = [fft_f(x) for x in cdist]; ctrans = [fft_f(x) for x in ctrans]
+        coords = [fft_f(x) for x in coords]; lags = [fft_f(x) for x in lags]
         nn = nx[0] * nx[1] * nx[2]
         def node(i): return (i % nx[0], (i // nx[0]) % nx[1], i // (nx[0] * nx[1]))
-        errs = {'true': 0., 'dist': 0., 'swapxy': 0., 'swapxz': 0.}
+        # ---- geometry of the grid (mesh, rotation, origin): cases without the geometry tail are unit-mesh unrotated grids at the origin
+        if len(case) > 9:
+            dxs = [fft_f(x) for x in case[9]]; gang = [fft_f(x) for x in case[10]]; x0 = [fft_f(x) for x in case[11]]
+            M = [[fft_f(v) for v in row] for row in case[12]]
+        else:
+            dxs, gang, x0, M = [1.] * nd, [0.] * nd, [0.] * nd, []
+        rotated = bool(M)
+        if not M: M = [[1. if a == b else 0. for b in range(nd)] for a in range(nd)]
+        gscale = max(1., max(abs(v) for v in coords))
+        # (1) node coordinates of the library vs x0 + R.(ind*dx) with the rotation convention of coq/C16/Model.v (i2c, rot2d/rot3d)
+        gerr = 0.
+        for i in range(nn):
+            ind = node(i)
+            for a in range(nd):
+                want = x0[a] + sum(M[a][b] * ind[b] * dxs[b] for b in range(nd))
+                gerr = max(gerr, abs(coords[i * nd + a] - want))
+        if gerr > 1e-9 * gscale:
+            ctx.violation('DbGrid:node-coordinates-vs-rotation-convention',
+                          'grid nx %r dx %r angles %r x0 %r: node coordinates of the DbGrid differ from x0 + R.(ind*dx) by %.3g (rotation convention of C16 i2c)' % (nx[:nd], dxs, gang, x0, gerr), replay)
+            return True
+        # (2) the exact lags of the Coq model (lag_of (step_mat g) = _prepar's formula, node(l) - node(0)) vs the coordinate differences of the library
+        if model:
+            m_lag, m_lagT, m_diff = model
+            if m_lag != m_diff:
+                ctx.violation('model-drift:lag-is-coordinate-difference', 'the model lag of _prepar differs from node(l) - node(0) (theorem C14_fft_lag_is_coordinate_difference contradicted?)', replay, found_input=False)
+                return False
+            lerr = 0.; k = 0
+            for v in m_lag:
+                for a in range(nd):
+                    lerr = max(lerr, abs(lags[k] - float(unq(v[a])))); k += 1
+            if k != len(lags) or lerr > 1e-9 * gscale:
+                ctx.violation('DbGrid:node-coordinates-vs-rotation-convention',
+                              'grid nx %r dx %r angles %r: coordinate differences of the library differ from the exact lags R.(l*dx) of the model by %.3g' % (nx[:nd], dxs, gang, lerr), replay)
+                return True
+        # ---- second moments
+        errs = {'true': 0., 'dist': 0., 'swapxy': 0., 'swapxz': 0., 'trans': 0.}
+        worst = None
         for i in range(nn):
             pi = node(i)
             for j in range(nn):
                 pj = node(j); lag = (pi[0] - pj[0], pi[1] - pj[1], pi[2] - pj[2]); cij = cov[i * nn + j]
-                errs['true'] = max(errs['true'], abs(cij - fft_lagcov(ctrue, nx, lag)))
+                e = abs(cij - fft_lagcov(ctrue, nx, lag))
+                if e > errs['true']: errs['true'] = e; worst = (lag, cij, fft_lagcov(ctrue, nx, lag))
                 errs['dist'] = max(errs['dist'], abs(cij - fft_lagcov(cdist, nx, lag)))
+                errs['trans'] = max(errs['trans'], abs(cij - fft_lagcov(ctrans, nx, lag)))
                 if nd >= 2 and abs(lag[1]) < nx[0] and abs(lag[0]) < nx[1]:
                     errs['swapxy'] = max(errs['swapxy'], abs(cij - fft_lagcov(ctrue, nx, (lag[1], lag[0], lag[2]))))
                 if nd >= 3 and abs(lag[2]) < nx[0] and abs(lag[0]) < nx[2]:
                     errs['swapxz'] = max(errs['swapxz'], abs(cij - fft_lagcov(ctrue, nx, (lag[2], lag[1], lag[0]))))
-        tol = 0.03 * sill
+        # spectrum clipped while the caller switched the anti-aliasing off: the method is approximate by design there (documented clipping)
+        tol = (0.10 if (nclip > 0 and not case[8]) else 0.03) * sill
         def fft_opt(n):      # smallest even number >= n whose prime factors are all <= 11 (what C14_fft_optimal_even proves of the model)
             m = n + (n % 2)
             while True:
@@ -1289,9 +1438,9 @@ def cmp_fft(ctx, case, meta, impl, model):
                 if x == 1: return m
                 m += 2
         smooth_ok = all(dims[i] == fft_opt(shift[i] + nx[i]) for i in range(nd)) and all(dims[i] == 1 for i in range(nd, 3))
-        ctx.sample({'nx': nx, 'dims': dims, 'shift': shift, 'cov': FFT_COV.get(ct), 'sill': sill, 'max|Im| after inverse fft': maxv, 'max|Re|': maxu,
-                    'max |Cov_out - C_model|': errs['true'], 'tol': tol}, maxn=8)
-        if os.environ.get('FFT_DEBUG'): print('DBG220 nd=%d nx=%r cov=%s sill=%g ranges=%r ang=%r dims=%r shift=%r maxu=%.3g maxv=%.3g nclip=%d errs=%r' % (nd, nx, FFT_COV.get(ct), sill, [fft_f(x) for x in case[5]], fft_f(case[6][0]), dims, shift, maxu, maxv, nclip, {k: round(v, 5) for k, v in errs.items()}))
+        ctx.sample({'nx': nx, 'dx': dxs, 'grid angles': gang, 'dims': dims, 'shift': shift, 'cov': FFT_COV.get(ct), 'sill': sill, 'max|Im| after inverse fft': maxv, 'max|Re|': maxu,
+                    'max |Cov_out - C_model(coord(b)-coord(a))|': errs['true'], 'tol': tol}, maxn=8)
+        if os.environ.get('FFT_DEBUG'): print('DBG220 nd=%d nx=%r cov=%s sill=%g ranges=%r mang=%r dx=%r gang=%r dims=%r shift=%r maxv=%.3g nclip=%d alias=%r errs=%r' % (nd, nx[:nd], FFT_COV.get(ct), sill, [fft_f(x) for x in case[5]], fft_f(case[6][0]), dxs, gang, dims[:nd], shift[:nd], maxv, nclip, case[8], {k: round(v, 5) for k, v in errs.items()}))
         if not smooth_ok:
             ctx.violation('CalcSimuFFT:_alloc-dims', 'extended dims %r are not the smallest even 11-smooth numbers >= shift+nx (%r + %r)' % (dims, shift, nx), replay); return True
         if not okrule:
@@ -1303,6 +1452,19 @@ def cmp_fft(ctx, case, meta, impl, model):
                           'output covariance differs from the model by %.3g (sill %.3g)' % (nx[:nd], dims[:nd], maxv, maxu, errs['true'], sill), replay)
             return True
         if errs['true'] <= tol: return False
+        if rotated and errs['trans'] <= tol:
+            ctx.violation('CalcSimuFFT:lag-of-rotated-grid-transposed',
+                          'grid %r dx %r rotated by %r, %s ranges %r: the output covariance matches the model evaluated at the lag built with the TRANSPOSED step matrix '
+                          '(sum_j jnd[j]*xyz1[i][j], err %.3g) and not at the coordinate difference of the nodes (err %.3g, sill %.3g); worst pair: index offset %r '
+                          'simulated %.4g model %.4g' % (nx[:nd], dxs, gang[:max(1, nd - 1) if nd == 2 else nd], FFT_COV.get(ct), [fft_f(x) for x in case[5]],
+                                                         errs['trans'], errs['true'], sill, worst[0][:nd], worst[1], worst[2]), replay)
+            return True
+        if nclip > 0 and case[8] and rotated:
+            ctx.violation('CalcSimuFFT:antialiasing-shift-not-rotated',
+                          'grid %r dx %r rotated by %r, dims %r, flag_aliasing on: the anti-aliasing pass shifts the lag by k*DX*_dims along the axes of the SPACE while the period '
+                          'of the extended array runs along the rotated axes of the GRID: %d spectrum terms clipped, output covariance differs from the model by %.3g (sill %.3g)'
+                          % (nx[:nd], dxs, gang, dims[:nd], nclip, errs['true'], sill), replay)
+            return True
         if nclip > 0 and case[8]:
             ctx.violation('CalcSimuFFT:antialiasing-wrong-period',
                           'grid %r dims %r, flag_aliasing on: negative spectrum terms on the first pass trigger the anti-aliasing pass, which sums the covariance '
@@ -1320,7 +1482,7 @@ def cmp_fft(ctx, case, meta, impl, model):
         if nd >= 3 and errs['swapxz'] <= tol:
             ctx.violation('CalcSimuFFT:axes-swapped', 'grid %r dims %r: output covariance matches the model with x and z exchanged (err %.3g vs %.3g)' % (nx[:nd], dims[:nd], errs['swapxz'], errs['true']), replay)
             return True
-        ctx.violation('CalcSimuFFT:second-moment', 'grid %r dims %r: max |Cov_out - C_model| = %.3g > %.3g (errors vs alternatives %r)' % (nx[:nd], dims[:nd], errs['true'], tol, errs), replay)
+        ctx.violation('CalcSimuFFT:second-moment', 'grid %r dx %r angles %r dims %r: max |Cov_out - C_model| = %.3g > %.3g (errors vs alternatives %r; worst index offset %r)' % (nx[:nd], dxs, gang, dims[:nd], errs['true'], tol, errs, worst[0][:nd]), replay)
         return True
     # ------------------------------------------------------------------ 270
     if kind == 270:
@@ -1375,6 +1537,8 @@ def cmp_fft(ctx, case, meta, impl, model):
                 ctx.violation('SimuSpectral:_computeOnRn-value', 'sill %g: impl %r recomputed %r' % (s, iv[:3], base[:3]), replay); bad = True
         return bad
     return False
+
+
 
 
 
@@ -1709,28 +1873,11 @@ def run(ctx):
     # ---- turning bands
     ntb = 70 if quick else 900
     cases = [c for c in load_corpus(ctx) if c and c[0] == 1] + [gen_tb_case(rng, quick) for _ in range(ntb)]
-    # grid / point twins: the same nodes given as an isolated point set must receive the same values (same seed): ties
-    # _spreadRegularOnGrid / _spreadSpectralOnGrid (running sums, cosine recurrences) to the point evaluation
-    twins = []
-    for i, c in enumerate(cases):
-        d = c[6]
-        if d[0] == 1 and not d[4] and not d[5]:      # unrotated, unmasked grids (a mask changes the band extents of the point twin)
-            nx, dx, x0 = d[1], [undy(v) for v in d[2]], [undy(v) for v in d[3]]
-            ndim = c[4]; idx = [[]]
-            for k in range(ndim - 1, -1, -1): idx = [[a] + t for a in range(nx[k]) for t in idx] if False else idx
-            pts = []
-            def rec(k, cur):
-                if k < 0: pts.append(list(cur)); return
-                for a in range(nx[k]):
-                    cur[k] = a; rec(k - 1, cur)
-            rec(ndim - 1, [0] * ndim)          # last dimension slowest, first fastest
-            coords = [[dy(x0[k] + p_[k] * dx[k]) for p_ in pts] for k in range(ndim)]
-            twins.append((i, [1] + c[1:6] + [[0, coords, d[5]], c[7]]))
     nq = 8 if quick else 60
     quad = [gen_quad_case(rng) for _ in range(nq)]
     nch = 40 if quick else 400
     chol = [gen_chol_case(rng) for _ in range(nch)]
-    allc = cases + [q[0] for q in quad] + [q[1] for q in quad] + chol + [t[1] for t in twins]
+    allc = cases + [q[0] for q in quad] + [q[1] for q in quad] + chol
     cf = write_cases(ctx, 'impl', allc)
     rc_i, impl = run_impl(ctx, exe, cf)
     impl = impl + [None] * (len(allc) - len(impl))
@@ -1768,10 +1915,21 @@ def run(ctx):
             res = impl[off + k]
             mcases.append([3, c[1], lrows, c[2], res[2], res[3], c[4]])   # out = M.g with M the harvested map
             mmeta.append(('chol', off + k))
-    off += len(chol)
+    # grid / point twins: the same nodes (coordinates as the DbGrid gives them, rotation included) given as an isolated point set
+    # must receive the same values (same seed): ties _simulateGrid / _spreadRegularOnGrid / _spreadSpectralOnGrid (running sums and
+    # cosine recurrences along the ROTATED grid axes) to the point evaluation.  Unmasked grids only (a mask changes the band extents).
+    twins = []
+    for i, c in enumerate(cases):
+        d = c[6]
+        if d[0] == 1 and not d[5] and impl[i] is not None and impl[i][0] == 0 and len(impl[i]) > 10:
+            twins.append((i, [1] + c[1:6] + [[0, impl[i][10], []], c[7]]))
+            ctx.dist('twin_rotated_grid' if d[4] and any(undy(a) != 0 for a in d[4]) else 'twin_plain_grid')
+    tf = write_cases(ctx, 'twins', [t[1] for t in twins])
+    rc_t, timpl = run_impl(ctx, exe, tf)
+    timpl = timpl + [None] * (len(twins) - len(timpl))
     for k, (i, tc) in enumerate(twins):
-        rg, rp = impl[i], impl[off + k]
-        ctx.dist('twin_grid_point'); ctx.count(None, False)
+        rg, rp = impl[i], timpl[k]
+        ctx.count(None, False)
         if rg is None or rp is None or rg[0] != 0 or rp[0] != 0:
             if not (rg is None or rg[0] != 0):
                 ctx.violation('simtub:grid-vs-points:run-failed', 'the point twin of a grid case failed', {'case': sx_str(tc)}); found_input = True
